@@ -39,6 +39,7 @@ CONSTANTS Splits,       \* set of split names (strings)
                         \* is written): the two deviations only exist to show that C06 can fail (non-vacuity)
           CheckChildren, \* FALSE: the integrity check does not recurse into child lists (only to show C05 can fail)
           NoMkdir,      \* TRUE: directory creation is not modelled as an effect (trace validation mode)
+          MaxMoves,     \* how often the dataset directory may be moved / copied elsewhere (C20)
           CrashOn, ReaderOn
 
 VARIABLES files,     \* Path -> Content
@@ -167,7 +168,7 @@ IdleProc == [active |-> FALSE, sess |-> 0, dir |-> <<>>, auto |-> TRUE,
              open |-> [s \in Splits |-> NoShard], oorder |-> <<>>,
              lists |-> [s \in Splits |-> NotLoaded], lorder |-> <<>>,
              nw |-> 0, todo |-> <<>>, state |-> "idle", updated |-> <<>>]
-IdleCtl(u) == [mode |-> "idle", k |-> 0, used |-> u]
+IdleCtl(u) == [mode |-> "idle", k |-> 0, used |-> u, loc |-> ctl.loc]
 
 ShardPath(pr, s, id) == <<s>> \o pr.dir \o <<"sh" \o ToString(id)>>
 LP(pr, s) == <<s>> \o pr.dir
@@ -175,7 +176,7 @@ LP(pr, s) == <<s>> \o pr.dir
 Init == /\ files = <<>> /\ dirs = {}
         /\ mem = NoHandle
         /\ procs = [p \in P |-> IdleProc]
-        /\ ctl = IdleCtl(0)
+        /\ ctl = [mode |-> "idle", k |-> 0, used |-> 0, loc |-> 0]
         /\ nextEx = 1 /\ nextShard = 1 /\ nsess = 0
         /\ wlog = <<>> /\ done = {}
         /\ callerMd = "A"
@@ -215,6 +216,16 @@ Open ==
     /\ mem # files[InfoPath].splits          \* (a no-op reopen is not a step)
     /\ mem' = files[InfoPath].splits
     /\ UNCHANGED <<files, dirs, procs, ctl, nextEx, nextShard, nsess, wlog, done, callerMd, crashed, failed, rd>>
+
+\* The dataset directory is moved or copied to another location (C20).  Every path in the metadata is relative
+\* to the root, so nothing in `files` changes; a handle opened at the old location is dropped and the dataset is
+\* opened again where it now lives.  That all properties stay invariant across Relocate IS the statement
+\* "opens, verifies, iterates and accepts further writing exactly as before".
+Relocate ==
+    /\ Quiescent /\ ctl.loc < MaxMoves /\ mem # NoHandle
+    /\ ctl' = [ctl EXCEPT !.loc = @ + 1]
+    /\ mem' = NoHandle
+    /\ UNCHANGED <<files, dirs, procs, nextEx, nextShard, nsess, wlog, done, callerMd, crashed, failed, rd>>
 
 (* ---- filler sessions ------------------------------------------------------------------------ *)
 BeginFiller(d) ==
@@ -347,7 +358,7 @@ MultiBegin(K) ==
                              THEN [IdleProc EXCEPT !.active = TRUE, !.sess = nsess + 1, !.auto = FALSE,
                                                    !.dir = <<WriterNames[ctl.used + p]>>, !.state = "writing"]
                              ELSE procs[p]]
-    /\ ctl' = [mode |-> "multi", k |-> K, used |-> ctl.used + K]
+    /\ ctl' = [mode |-> "multi", k |-> K, used |-> ctl.used + K, loc |-> ctl.loc]
     /\ UNCHANGED <<files, dirs, mem, nextEx, nextShard, wlog, done, callerMd, crashed, failed, rd>>
 
 \* the parent collects get_updated_infos() in argument order and calls write_config (:128-134)
@@ -596,7 +607,7 @@ C06_Reader ==
 
 (* ---------------------------------------------------------------------------------------- *)
 Next ==
-    \/ Create \/ Open
+    \/ Create \/ Open \/ Relocate
     \/ \E d \in FillerDirs : BeginFiller(d)
     \/ \E p \in P, s \in Splits, md \in MDs, kd \in Kinds : Write(p, s, md, kd)
     \/ MutateCaller
